@@ -231,9 +231,9 @@ func VerifC16Lookup() {
 //verif:property C16
 //verif:expect bound
 func VerifC16Binding() {
-	base := &Type{Name: "B", Dict: StringDict{}}
+	base := &Type{Name: "B", Dict: StringDict{}, ObjectType: TypeType}
 	base.Mro = Tuple{base}
-	cls := &Type{Name: "D", Dict: StringDict{}, Bases: Tuple{base}}
+	cls := &Type{Name: "D", Dict: StringDict{}, Bases: Tuple{base}, ObjectType: TypeType}
 	cls.Mro = Tuple{cls, base}
 	fn := &Function{Name: "f"}
 	holder := cls
@@ -252,6 +252,26 @@ func VerifC16Binding() {
 		holder.Dict["m"] = Int(7)
 	}
 	inst := &c16Inst{t: cls, dict: StringDict{}}
+	if verifChoice("through", 2) == 1 {
+		// read through the class object itself (D.m): a function stays a plain
+		// function, a classmethod binds the class it was read through, a
+		// staticmethod binds nothing
+		got, err := GetAttrString(cls, "m")
+		verifReach("bound")
+		verifAssert(err == nil, "found through the class")
+		switch kind {
+		case 0:
+			verifAssert(got == Object(fn), "a plain function read through the class is the function itself")
+		case 1:
+			bm, ok := got.(*BoundMethod)
+			verifAssert(ok && bm.Self == Object(cls) && bm.Method == Object(fn), "a classmethod read through the class binds that class")
+		case 2:
+			verifAssert(got == Object(fn), "a staticmethod read through the class binds nothing")
+		default:
+			verifAssert(got == Object(Int(7)), "a plain value is returned as is")
+		}
+		return
+	}
 	got, err := GetAttrString(inst, "m")
 	verifReach("bound")
 	verifAssert(err == nil, "found")
